@@ -224,3 +224,62 @@ def recursion_discipline(P, R, rule, fns):
                             "of the structural recursion are swapped or mixed" % (f.path, ci, i, names[i], sorted(a) or "neither parameter"),
                             loc=f.loc())
     return n
+
+
+def pat_matches(pat, value):
+    """does a pattern match an abstract value? value: a variant name (str) or a tuple of values; wildcards match anything.
+    Variant payloads are not inspected (sub-patterns of a variant are assumed irrefutable)."""
+    from facts import norm
+    k = pat.get("k")
+    if k in ("Ref", "Deref", "Box"):
+        return pat_matches(pat["p"], value)
+    if k in ("Wild",):
+        return True
+    if k == "Binding":
+        return pat_matches(pat["sub"], value) if "sub" in pat else True
+    if k == "Or":
+        return any(pat_matches(p, value) for p in pat["ps"])
+    if k == "Tuple":
+        if not isinstance(value, tuple) or len(value) != len(pat["ps"]):
+            return False
+        return all(pat_matches(p, v) for p, v in zip(pat["ps"], value))
+    if k in ("TupleStruct", "Struct", "PatExpr"):
+        d = pat.get("ctor_of") or pat.get("def")
+        if d is None:
+            return False
+        return norm(d).split("::")[-1] == value
+    return False
+
+
+def first_match(match, value):
+    """index of the first arm (without guard) whose pattern matches the abstract value, or None"""
+    for i, arm in enumerate(match["arms"]):
+        if "guard" in arm:
+            continue
+        if pat_matches(arm["pat"], value):
+            return i
+    return None
+
+
+def iterator_reuse(P, R, rule, fns):
+    """an iterator bound to a local and consumed by more than one partial consumer: the second one only sees what the
+    first left over (e.g. `it.any(a) && it.any(b)`)"""
+    from facts import short, peel_ty
+    partial = {"any", "all", "find", "find_map", "position", "next", "nth", "take", "take_while", "skip_while", "try_fold", "try_for_each"}
+    n = 0
+    for f in fns:
+        uses = {}
+        for c in f.walk():
+            if c.get("k") == "MethodCall" and c["recv"].get("k") == "Path" and "local" in c["recv"]:
+                t = peel_ty(c["recv"].get("t", ""))
+                is_iter = "::Iter<" in t or "::IntoIter<" in t or t.startswith(("core::iter::", "core::slice::iter::", "alloc::vec::into_iter")) or "impl Iterator" in t or "impl core::iter" in t
+                if is_iter:
+                    uses.setdefault((c["recv"]["local"], c["recv"].get("name")), []).append(c["method"])
+        for (lid, name), ms in uses.items():
+            n += 1
+            cons = [m for m in ms if m in partial]
+            if len(cons) >= 2 and name not in ("iter",):
+                R.violated(rule, "iter-reuse:%s:%s" % (short(f.path), name),
+                           "%s consumes the iterator `%s` with %s in sequence: each consumer only sees the elements the previous one "
+                           "left, so the result depends on element order" % (f.path, name, cons), loc=f.loc())
+    return n
